@@ -62,19 +62,18 @@ func checkC08(w *World, r *Report) {
 		for _, fn := range []string{"openQuotePos", "trimLeadWS"} {
 			fd, fp := w.FuncDecl(w.Func("parse", fn))
 			uses := false
-			ast.Inspect(fd.Body, func(n ast.Node) bool {
-				if id, ok := n.(*ast.Ident); ok && fp.TypesInfo.Uses[id] == types.Object(ts) {
-					uses = true
-				}
-				return true
-			})
-			okW := true
-			if fn == "trimLeadWS" {
-				okW = false
-				ast.Inspect(fd.Body, func(n ast.Node) bool {
-					if vs, ok := n.(*ast.ValueSpec); ok && len(vs.Values) == 1 {
-						if s, ok := ConstStr(fp, vs.Values[0]); ok && s == strings.Repeat(" ", int(v)) {
-							okW = true
+			okW := fn != "trimLeadWS"
+			// the function itself and helpers only it uses
+			for _, d := range w.ownedDecls("parse", w.Func("parse", fn)) {
+				ast.Inspect(d.Body, func(n ast.Node) bool {
+					if id, ok := n.(*ast.Ident); ok && fp.TypesInfo.Uses[id] == types.Object(ts) {
+						uses = true
+					}
+					if fn == "trimLeadWS" {
+						if e, ok := n.(ast.Expr); ok {
+							if s, ok := ConstStr(fp, e); ok && s == strings.Repeat(" ", int(v)) {
+								okW = true
+							}
 						}
 					}
 					return true
@@ -635,158 +634,176 @@ func checkC10(w *World, r *Report) {
 	r.Rule("R10.5", "line/column bookkeeping: the 'no earlier line break' test on the LastIndex result treats index 0 as found", 2)
 	r.guard("R10.5", func() {
 		for _, m := range []string{"ErrorContextPosition", "errorf"} {
-			fd, _ := w.FuncDecl(w.Method("parse", "Tree", m))
-			var idx types.Object
-			ast.Inspect(fd.Body, func(n ast.Node) bool {
-				if as, ok := n.(*ast.AssignStmt); ok && len(as.Rhs) == 1 {
-					if ce, ok := as.Rhs[0].(*ast.CallExpr); ok {
-						if c := calleeOf(p, ce); c != nil && c.FullName() == "strings.LastIndex" {
-							idx = objOfIdent(p, as.Lhs[0])
+			root := w.SSAFunc(w.Method("parse", "Tree", m))
+			if root == nil {
+				panic(undecided{"Tree." + m})
+			}
+			// the function and the in-package helpers it calls
+			cone := []*ssa.Function{root}
+			seen := map[*ssa.Function]bool{root: true}
+			for i := 0; i < len(cone) && i < 40; i++ {
+				for _, b := range cone[i].Blocks {
+					for _, in := range b.Instrs {
+						if c, ok := in.(ssa.CallInstruction); ok {
+							if g := c.Common().StaticCallee(); g != nil && g.Pkg == root.Pkg && g.Blocks != nil && !seen[g] {
+								seen[g] = true
+								cone = append(cone, g)
+							}
 						}
 					}
 				}
-				return true
-			})
-			if idx == nil {
-				r.Fail("R10.5", "Tree."+m, fd.Pos(), "no LastIndex-based column computation found")
+			}
+			n, tests := 0, 0
+			bad := ""
+			dom := ISet{{-1, fullISet[0].hi}}
+			for _, g := range cone {
+				for _, b := range g.Blocks {
+					for _, in := range b.Instrs {
+						c, ok := in.(*ssa.Call)
+						if !ok || c.Call.StaticCallee() == nil || c.Call.StaticCallee().String() != "strings.LastIndex" {
+							continue
+						}
+						n++
+						for _, ref := range *c.Referrers() {
+							bo, ok := ref.(*ssa.BinOp)
+							if !ok {
+								continue
+							}
+							var k int64
+							var isK bool
+							op := bo.Op
+							if bo.X == ssa.Value(c) {
+								k, isK = intConstOf(bo.Y)
+							} else {
+								k, isK = intConstOf(bo.X)
+								op = map[token.Token]token.Token{token.LSS: token.GTR, token.GTR: token.LSS, token.LEQ: token.GEQ, token.GEQ: token.LEQ, token.EQL: token.EQL, token.NEQ: token.NEQ}[op]
+							}
+							if !isK {
+								continue
+							}
+							var set ISet
+							switch op {
+							case token.EQL, token.NEQ:
+								set = isetOf(k)
+							case token.LSS:
+								set = ISet{{fullISet[0].lo, k - 1}}
+							case token.LEQ:
+								set = ISet{{fullISet[0].lo, k}}
+							case token.GTR:
+								set = ISet{{k + 1, fullISet[0].hi}}
+							case token.GEQ:
+								set = ISet{{k, fullISet[0].hi}}
+							default:
+								continue
+							}
+							tests++
+							set = set.intersect(dom)
+							if !set.equal(isetOf(-1)) && !set.equal(ISet{{0, fullISet[0].hi}}) {
+								bad = w.PosStr(bo.Pos())
+							}
+						}
+					}
+				}
+			}
+			if n == 0 || tests == 0 {
+				r.Fail("R10.5", "Tree."+m, root.Pos(), "no LastIndex-based column computation found")
 				continue
 			}
-			good, bad := false, false
-			ast.Inspect(fd.Body, func(n ast.Node) bool {
-				be, ok := n.(*ast.BinaryExpr)
-				if !ok || objOfIdent(p, be.X) != idx {
-					return true
-				}
-				v, isC := ConstInt(p, be.Y)
-				if !isC {
-					return true
-				}
-				switch {
-				case (be.Op == token.EQL || be.Op == token.NEQ) && v == -1, (be.Op == token.LSS || be.Op == token.GEQ) && v == 0:
-					good = true
-				case (be.Op == token.GTR || be.Op == token.LEQ) && v == 0, (be.Op == token.EQL || be.Op == token.NEQ) && v == 0:
-					bad = true
-				}
-				return true
-			})
-			r.Check(good && !bad, "R10.5", "Tree."+m+" not-found test", fd.Pos(), "== -1 / < 0", "a line break at byte 0 is treated as 'not found': columns on line 2 are counted from the start of the text")
+			r.Check(bad == "", "R10.5", "Tree."+m+" not-found test", root.Pos(), "== -1 / < 0", "a line break at byte 0 is treated as 'not found' ("+bad+"): columns on line 2 are counted from the start of the text")
 		}
 	})
 }
 
 // c08EscapeFlag: flag discipline of escapeSequenceSubstitution (shared by C08 and C10).
 func c08EscapeFlag(w *World, r *Report, rule string) {
-		fd, fp := w.FuncDecl(w.Func("parse", "escapeSequenceSubstitution"))
-		// the flag: a local bool assigned true somewhere
-		var flag types.Object
-		ast.Inspect(fd.Body, func(n ast.Node) bool {
-			if as, ok := n.(*ast.AssignStmt); ok && len(as.Lhs) == 1 && len(as.Rhs) == 1 {
-				if v := ConstOf(fp, as.Rhs[0]); v != nil && v.Kind() == constant.Bool && constant.BoolVal(v) {
-					flag = objOfIdent(fp, as.Lhs[0])
-				}
+	f := w.SSAFunc(w.Func("parse", "escapeSequenceSubstitution"))
+	if f == nil {
+		panic(undecided{"parse.escapeSequenceSubstitution"})
+	}
+	// the loop over the pieces and its boolean state: the loop-carried bool
+	var loop *ssaLoop
+	var flag *ssa.Phi
+	for _, l := range ssaLoops(f) {
+		for _, in := range l.Header.Instrs {
+			phi, ok := in.(*ssa.Phi)
+			if !ok {
+				break
 			}
-			return true
-		})
-		if flag == nil {
-			panic(undecided{"escapeSequenceSubstitution: state flag"})
+			if b, ok := phi.Type().Underlying().(*types.Basic); ok && b.Kind() == types.Bool {
+				if flag != nil {
+					panic(undecided{"escapeSequenceSubstitution: two boolean state variables"})
+				}
+				l := l
+				loop, flag = &l, phi
+			}
 		}
-		flagFalse := func(e ast.Expr) bool { // condition implies flag == false
-			for _, c := range flattenAnd(e) {
-				c = ast.Unparen(c)
-				if u, ok := c.(*ast.UnaryExpr); ok && u.Op == token.NOT && objOfIdent(fp, u.X) == flag {
-					return true
-				}
-				if be, ok := c.(*ast.BinaryExpr); ok && be.Op == token.EQL && objOfIdent(fp, be.X) == flag {
-					if v := ConstOf(fp, be.Y); v != nil && !constant.BoolVal(v) {
-						return true
-					}
-				}
-			}
+	}
+	if flag == nil {
+		panic(undecided{"escapeSequenceSubstitution: state flag"})
+	}
+	sym := NewSym(w)
+	sym.Name(flag, "flag")
+	// the flag's value at the start of the next iteration, as a formula
+	next := pcZ
+	for i, pred := range loop.Header.Preds {
+		if !loop.Header.Dominates(pred) {
+			continue
+		}
+		next = pcOrF(next, pcAndF(pcAndF(sym.PathCond(loop.Header, pred, nil), sym.edgeCond(pred, loop.Header, nil)), sym.Cond(flag.Edges[i], nil)))
+	}
+	isPiece := func(v ssa.Value) bool {
+		ld, ok := v.(*ssa.UnOp)
+		if !ok || ld.Op != token.MUL {
 			return false
 		}
-		assigns := func(n ast.Node, val bool) bool {
-			found := false
-			ast.Inspect(n, func(x ast.Node) bool {
-				if as, ok := x.(*ast.AssignStmt); ok && len(as.Lhs) == 1 && objOfIdent(fp, as.Lhs[0]) == flag {
-					if v := ConstOf(fp, as.Rhs[0]); v != nil && constant.BoolVal(v) == val {
-						found = true
+		ia, ok := ld.X.(*ssa.IndexAddr)
+		return ok && isRangeIndex(ia.Index)
+	}
+	classify := func(a *pcAtom) string {
+		if a.subj != "" && a.set.equal(isetOf(0)) {
+			if bo, ok := a.v.(*ssa.BinOp); ok {
+				for _, side := range []ssa.Value{bo.X, bo.Y} {
+					if isPiece(side) {
+						return "empty"
+					}
+					if arg, ok := isLenCall(side); ok && isPiece(arg) {
+						return "empty"
 					}
 				}
-				return true
-			})
-			return found
+			}
 		}
-		// locate the loop body; the statement(s) after the `if st == "" { … continue }`
-		ok := false
-		why := "loop shape not recognised"
-		ast.Inspect(fd.Body, func(n ast.Node) bool {
-			rs, isR := n.(*ast.RangeStmt)
-			if !isR {
-				return true
-			}
-			var rest []ast.Stmt
-			for i, s := range rs.Body.List {
-				if is, isIf := s.(*ast.IfStmt); isIf {
-					if be, isB := ast.Unparen(is.Cond).(*ast.BinaryExpr); isB && be.Op == token.EQL {
-						if v, isS := ConstStr(fp, be.Y); isS && v == "" {
-							rest = rs.Body.List[i+1:]
-							// the only place that may set the flag
-							if assigns(&ast.BlockStmt{List: rest}, true) {
-								why = "the flag is set while handling a non-empty piece"
-								return false
-							}
-						}
-					}
-				}
-			}
-			if rest == nil {
-				return true
-			}
-			// every path through rest ends with flag false
-			allFalse := true
-			for _, s := range rest {
-				is, isIf := s.(*ast.IfStmt)
-				if !isIf {
-					continue
-				}
-				if !(flagFalse(is.Cond) && !assigns(is.Body, true)) && !assigns(is.Body, false) {
-					allFalse = false
-				}
-				if is.Else != nil {
-					if !assigns(is.Else, false) {
-						allFalse = false
-					}
-				} else if !flagFalse(is.Cond) {
-					// no else: the fall-through path keeps whatever the flag was
-					allFalse = false
-				}
-			}
-			if allFalse {
-				ok = true
-			} else {
-				why = "after a non-empty piece the flag can still be true: a later escape in the same string is then copied undecoded (\"a\\\\\\\\b\\\\tc\")"
-			}
-			return false
-		})
-		r.Check(ok, rule, "escapeSequenceSubstitution flag discipline", fd.Pos(), "flag false after every non-empty piece", why)
+		return ""
+	}
+	msg := pcImplies(next, classify, func(env map[string]bool) bool { return env["empty"] })
+	why := ""
+	if msg != "" {
+		why = "after a non-empty piece the flag can still be true (" + msg + "): a later escape in the same string is then copied undecoded (\"a\\\\b\\tc\")"
+	}
+	r.Check(msg == "", rule, "escapeSequenceSubstitution flag discipline", f.Pos(), "flag false after every non-empty piece", why)
 }
 
 // c08QuoteColumn: openQuotePos counts characters, not bytes (shared by C08 and C10).
 func c08QuoteColumn(w *World, r *Report, rule string) {
-		fd, fp := w.FuncDecl(w.Func("parse", "openQuotePos"))
-		var res types.Object
-		if fd.Type.Results != nil && len(fd.Type.Results.List) == 1 && len(fd.Type.Results.List[0].Names) == 1 {
-			res = fp.TypesInfo.Defs[fd.Type.Results.List[0].Names[0]]
-		}
-		perRune, byLen := false, false
-		ast.Inspect(fd.Body, func(n ast.Node) bool {
+	root := w.Func("parse", "openQuotePos")
+	fd, fp := w.FuncDecl(root)
+	perRune, byLen := false, false
+	// openQuotePos and the helpers only it uses
+	for _, d := range w.ownedDecls("parse", root) {
+		ast.Inspect(d.Body, func(n ast.Node) bool {
 			switch x := n.(type) {
 			case *ast.RangeStmt:
 				if t := fp.TypesInfo.TypeOf(x.X); t != nil && types.Identical(t.Underlying(), types.Typ[types.String]) {
-					// accumulates into the result inside the loop
+					// accumulates inside the loop
 					ast.Inspect(x.Body, func(y ast.Node) bool {
-						if as, ok := y.(*ast.AssignStmt); ok && as.Tok == token.ADD_ASSIGN && (res == nil || objOfIdent(fp, as.Lhs[0]) == res) {
-							perRune = true
+						switch a := y.(type) {
+						case *ast.AssignStmt:
+							if a.Tok == token.ADD_ASSIGN {
+								perRune = true
+							}
+						case *ast.IncDecStmt:
+							if a.Tok == token.INC {
+								perRune = true
+							}
 						}
 						return true
 					})
@@ -801,5 +818,6 @@ func c08QuoteColumn(w *World, r *Report, rule string) {
 			}
 			return true
 		})
-		r.Check(perRune && !byLen, rule, "openQuotePos counts runes", fd.Pos(), "range over the lead-up text, += per rune", "the quote column is derived from byte lengths: a non-ASCII character before the opening quote shifts the indentation that is stripped from continuation lines")
+	}
+	r.Check(perRune && !byLen, rule, "openQuotePos counts runes", fd.Pos(), "range over the lead-up text, += per rune", "the quote column is derived from byte lengths: a non-ASCII character before the opening quote shifts the indentation that is stripped from continuation lines")
 }
